@@ -20,7 +20,7 @@ def obligations(tier):
         # ... and after an earlier plan in the same process (whatever a scheduler keeps at module level must not leak into the next plan)
         split(obs, "%s/step-after-prior-plan" % sched, "ob_ltf", {"sched": sched, "part": "step", "prior": True}, [G[0] + G[1]], timeout=to, fork=True, max_paths=32)
     split(obs, "vec/step", "ob_vec", {"part": "step"}, G, timeout=to, weight=3)
-    split(obs, "vec/step-after-prior-plan", "ob_vec", {"part": "step", "fork_ifs": True, "prior": True}, [G[0] + G[1]], timeout=min(to, 20), weight=4, fork=True, max_paths=48, limit=(300 if tier == "quick" else 1200))
+    split(obs, "vec/step-after-prior-plan", "ob_vec", {"part": "step", "fork_ifs": True, "prior": True}, [G[0] + G[1]], timeout=min(to, 20), weight=4, fork=True, max_paths=48, limit=(600 if tier == "quick" else 1200))
     split(obs, "new/step", "ob_new", {"part": "step"}, G, timeout=to if tier == "thorough" else 20, weight=3)
     whole_plan_obligations(obs, tier, "C03")
     return obs
